@@ -17,15 +17,20 @@ PROPS = {
             "modes": [{"name": "c01", "quick_n": 1500, "thorough_n": 12000, "shard": 120}]},
     "C02": {"theorems": [], "modes": [{"name": "c02", "quick_n": 500, "thorough_n": 4000, "shard": 120}]},
     "C03": {"theorems": [], "modes": [{"name": "c03", "quick_n": 500, "thorough_n": 4000, "shard": 150}]},
-    "C04": {"theorems": [], "modes": [{"name": "c04", "quick_n": 250, "thorough_n": 2000, "shard": 25}]},
-    "C07": {"theorems": [], "modes": [{"name": "c07", "quick_n": 250, "thorough_n": 2500, "shard": 250}]},
+    "C04": {"theorems": ["C04_vars_sorted_distinct_complete", "C04_binding_is_position", "C04_every_variable_has_an_index", "C04_arity_flat", "C04_arity_flat_relaxed", "C04_arity_deep", "C04_relaxed_ignores_surplus"], "modes": [{"name": "c04", "quick_n": 250, "thorough_n": 2000, "shard": 25}]},
+    "C07": {"theorems": ["C07_unbalanced_rejected", "C07_empty_rejected", "C07_trailing_operator_rejected", "C07_bad_pair_rejected", "C07_operand_count"], "modes": [{"name": "c07", "quick_n": 250, "thorough_n": 2500, "shard": 250}]},
     "C08": {"theorems": [], "modes": [{"name": "c08", "quick_n": 800, "thorough_n": 6000, "shard": 120}]},
-    "C10": {"theorems": [], "modes": [{"name": "c10", "quick_n": 400, "thorough_n": 3000, "shard": 40}, {"name": "c10s", "quick_n": 400, "thorough_n": 3000, "shard": 40}]},
+    "C10": {"theorems": ["C10_unknown_binary_name_is_error_partial", "C10_unknown_unary_name_is_error_partial", "C10_not_a_unary_operator_is_error_partial"], "modes": [{"name": "c10", "quick_n": 400, "thorough_n": 3000, "shard": 40}, {"name": "c10s", "quick_n": 400, "thorough_n": 3000, "shard": 40}]},
     "C11": {"theorems": [], "modes": [{"name": "c11", "quick_n": 400, "thorough_n": 3000, "shard": 40}]},
-    "C12": {"theorems": [], "modes": [{"name": "c12", "quick_n": 400, "thorough_n": 3000, "shard": 60}, {"name": "c12d", "quick_n": 150, "thorough_n": 1500, "shard": 20}]},
-    "C13": {"theorems": [], "modes": [{"name": "c13", "quick_n": 3, "thorough_n": 12, "shard": 120}]},
+    "C12": {"theorems": ["C12_flat_unparse_is_source_text_partial"], "modes": [{"name": "c12", "quick_n": 400, "thorough_n": 3000, "shard": 60}, {"name": "c12d", "quick_n": 150, "thorough_n": 1500, "shard": 20}]},
+    "C13": {"theorems": ["C13_extended_name_is_variable", "C13_sign_unary_iff", "C13_numeric_literal", "C13_brace_is_one_var"], "modes": [{"name": "c13", "quick_n": 3, "thorough_n": 12, "shard": 120}]},
     "C15": {"theorems": [], "modes": [{"name": "c15", "quick_n": 150, "thorough_n": 1500, "shard": 60}]},
-    "C05": {"theorems": [], "modes": [{"name": "c05", "quick_n": 400, "thorough_n": 3000, "shard": 30}]},
-    "C09": {"theorems": [], "modes": [{"name": "c09", "quick_n": 200, "thorough_n": 1500, "shard": 20}]},
-    "C18": {"theorems": [], "modes": [{"name": "c18", "quick_n": 300, "thorough_n": 2500, "shard": 30}]},
+    "C05": {"theorems": ["C05_rule_names_match_code_partial", "C05_no_rule_for_nondifferentiable_partial", "C05_missing_binary_rule_is_error_partial"], "modes": [{"name": "c05", "quick_n": 400, "thorough_n": 3000, "shard": 30}]},
+    "C09": {"theorems": ["C09_index_checked_first_partial", "C09_order_zero_partial"], "modes": [{"name": "c09", "quick_n": 200, "thorough_n": 1500, "shard": 20}]},
+    "C18": {"theorems": ["C18_condition_and_branch_rules_partial", "C18_rule_semantics_partial"], "modes": [{"name": "c18", "quick_n": 300, "thorough_n": 2500, "shard": 30}]},
+    "C06": {"theorems": ["C06_tokenizer_total_partial", "C06_preconditions_total_partial"], "nesting": True, "modes": [{"name": "c06", "quick_n": 1500, "thorough_n": 12000, "shard": 150, "profiles": ["dev", "release"]}]},
+    "C16": {"theorems": ["C16_int_add_sub_mul", "C16_int_div_rem", "C16_int_shifts_and_powers", "C16_int_results_in_range", "C16_promotion", "C16_cross_kind_compare", "C16_error_propagates", "C16_error_propagates_unary", "C16_if_else"], "prim_floats": True, "modes": [{"name": "val", "quick_n": 1, "thorough_n": 1, "shard": 6500}]},
+    "C17": {"theorems": ["C17_binary_total", "C17_dangerous_points", "C17_neg_abs"], "prim_floats": True, "modes": [{"name": "val", "quick_n": 1, "thorough_n": 1, "shard": 6500, "profiles": ["dev", "release"]}]},
+    "C19": {"theorems": ["C19_table_shape"], "prim_floats": True, "level": "other", "modes": [{"name": "c19", "quick_n": 1, "thorough_n": 1, "shard": 600}]},
+    "C20": {"theorems": ["C20_history_independence", "C20_parse_deterministic"], "level": "other", "build_failure_is_violation": True, "modes": [{"name": "c20", "quick_n": 3, "thorough_n": 25, "coq": False}]},
 }
